@@ -276,6 +276,8 @@ class CallMixin:
                 self.symbolise(v, ty)
             return v
         if isinstance(v, Opaque):
+            if ty in (STR, INT, REAL, BOOL):
+                return ctx.fresh(ty, "opq_arg")      # nothing is known about the value except its declared type
             raise Unsupported(f"opaque argument where {ty} expected")
         if ty.name == "Tuple" and isinstance(v, tuple):
             return v
@@ -305,7 +307,7 @@ class CallMixin:
             if not was_spec:
                 for k, r in enumerate(ct.requires):
                     g = ctx.zbool(ctx.truth(self.eval_spec_text(r)))
-                    ctx.oblige("call-pre", f"{ct.cid}#{k}@{getattr(node, 'lineno', 0)}", g, top=False,
+                    ctx.oblige("call-pre", f"{ct.cid}#{k}@call{self.engine.call_ordinal(ctx.contract, node)}", g, top=False,
                                info={"callee": ct.cid, "clause": r})
             snap = self.snapshot()
             # --- exceptions the callee may raise
@@ -337,11 +339,16 @@ class CallMixin:
                     res.fresh = bool(ct.fresh_result)
                     res.origin = f"result of {ct.func}"
             ctx.ghost["result"] = res
+            for g, init in ct.ghost.get("init", {}).items():
+                if g not in ctx.ghost:      # ghost state private to the callee: its final value is only known by the ensures
+                    ctx.ghost[g] = ctx.fresh(BOOL if init in ("True", "False") else INT, "cg_" + g)
             ctx.old_snap = snap
             for lbl, e in ct.lets.items():
                 ctx.ghost[lbl] = self.eval_spec_text(e)
             for lbl, e in ct.ensures.items():
                 ctx.assume(ctx.zbool(ctx.truth(self.eval_spec_text(e))))
+            for g, e in ct.ghost.get("sets", {}).items():
+                saved_ghost[g] = self.eval_spec_text(e)      # ghost effect of the callee on the caller's ghost state
             return res
         finally:
             ctx.spec, ctx.ghost = saved_spec, saved_ghost
@@ -385,9 +392,9 @@ class CallMixin:
                 if info is None:
                     raise Unsupported(f"modifies unknown field {m}")
                 key, ty = info
-                arr = self.heap_array(key, ty)
                 if ty == OPQ:
                     continue
+                arr = self.heap_array(key, ty)
                 nv = z3.Const(ctx.fresh_name("hv_" + field), sort_of(ty))
                 ctx.heap[key] = z3.Store(arr, obj.t, nv)
                 ck = (key, obj.t.sexpr())
